@@ -352,7 +352,9 @@ def finish(prop, tier, seed, total, meta, t0, legs):
         path = write_replay(prop, sig, case, detail, n)
         print("  signature=%s occurrences=%d\n  observed: %s" % (sig, n, detail[:600]))
         print("VIOLATION property=%s replay=%s" % (prop, path), flush=True)
-        code = max(code, 1)
+        # a violation with a replay file outranks harness trouble seen in the same run (typically caused by the same change:
+        # e.g. module-level state that makes two runs of one schedule differ)
+        code = 1
     legs_txt = dict(total.evals) if len(total.evals) <= 8 else "%d legs/harnesses" % len(total.evals)
     cls_txt = ({k: len(v) for k, v in total.classes.items()} if len(total.classes) <= 8
                else "%d distinct" % sum(len(v) for v in total.classes.values()))
